@@ -71,13 +71,13 @@ def run(ctx):
         classify=classify,
         harness_extra=["--cli", cli],
         extra_trusted=[
-            "spec side (coq/C16/Spec.v): my transcription of ECMAScript template-literal cooking (cross-checked against node on every run when node is present), of GraphQL StringValue lexing and BlockStringValue(), and the literal reading of 'minus nitrogql-only directives' (erase_directive)",
+            "spec side (coq/C16/Spec.v): my transcription of ECMAScript template-literal cooking (cross-checked against node on every run when node is present), of GraphQL StringValue lexing and BlockStringValue(), the GraphQL lexer and the token sequence of a document by the grammar (SpecLex.v), and the literal reading of 'minus nitrogql-only directives' (erase_directive)",
             "nitrogql's own parser is the oracle for 'parses to the same document': the harness re-parses every printed text with parse_type_system_document / parse_operation_document and compares the position-erased canonical dumps (the PEG model of the parser belongs to C07)",
             "harness/src/ast_coq.rs (AST -> Coq term) and harness/src/rec.rs (recording writer)",
             "node (optional) as the JavaScript engine evaluating the emitted module and the random template literals",
         ],
         assumptions=[
-            "string theorems are guarded by `plain` (single-line: no double quote / backslash; multi-line: no three quotes in a row, not ending in a quote or backslash) and read block strings the way nitrogql's parser does (raw); the template theorem is guarded by no carriage return and no `$`|`{` split across two writes",
+            "token theorem: names/numbers are runs of word characters, strings single-line and plain, no #import lines, no member-less union extension (LexGuard.v); string theorems are guarded by `plain` (single-line: no double quote / backslash; multi-line: no three quotes in a row, not ending in a quote or backslash) and read block strings the way nitrogql's parser does (raw); the template theorem is guarded by no carriage return and no `$`|`{` split across two writes",
             "server-schema theorem: @nitrogql_ts_type only on scalars and @model only on object types and their fields (what the schema check and the model plugin's check accept)",
         ],
     )
